@@ -47,8 +47,10 @@ type loopCase struct {
 type pipeCase struct {
 	Size string `json:"size"`
 	Lex  string `json:"lex"`
-	Segs []bool `json:"segs"`
-	Res  struct {
+	Segs  []bool `json:"segs"`
+	Pad   string `json:"pad"`
+	PadAt string `json:"padAt"`
+	Res   struct {
 		Verdict  string `json:"verdict"`
 		Stage    string `json:"stage"`
 		Family   string `json:"family"`
@@ -174,12 +176,34 @@ func main() {
 			}
 			text = strings.Join(parts, ";\n")
 		}
+		if pc.Pad != "" && pc.Pad != "none" {
+			// every spelling of the padding class, before the first and / or after the last segment
+			for _, pad := range padSpellings[pc.Pad] {
+				padded := text
+				if pc.PadAt == "lead" || pc.PadAt == "both" {
+					padded = pad + padded
+				}
+				if pc.PadAt == "trail" || pc.PadAt == "both" {
+					padded = padded + pad
+				}
+				agree(padded, pc.Res.Verdict, pc.Res.Family, json.RawMessage(c))
+			}
+			continue
+		}
 		agree(text, pc.Res.Verdict, pc.Res.Family, json.RawMessage(c))
 	}
 	batches(tier)
 	modelBatches(tier)
 	run.Exhaustive = true
 	run.Finish()
+}
+
+// padSpellings: the padding classes of Pipeline.tla (a line comment is followed by its newline so that it does not
+// swallow the statement after it)
+var padSpellings = map[string][]string{
+	"blank":   {" ", "\t", "\n", "\r\n", " \n\t "},
+	"comment": {"-- c\n", "/* c */", "/* c */ "},
+	"control": {"\x00", "\f", "\v", "\x1a", "\x7f", "\ufeff", "\u00a0", "\u2028"},
 }
 
 func pick(wantGood, wantKw bool) stmts.Stmt {
